@@ -34,6 +34,9 @@ void opus_pcm_soft_clip(float *x, int N, int C, float *m) { (void)x; (void)N; (v
 static float verif_window[120];
 static OpusCustomMode verif_mode;
 static int g_silk_calls, g_celt_calls, g_celt_bad;
+#ifdef VERIF_GAIN
+static int verif_K; static opus_res g_pre;
+#endif
 opus_int silk_Decode(void *decState, silk_DecControlStruct *decControl, opus_int lostFlag, opus_int newPacketFlag, ec_dec *psRangeDec,
                      opus_res *samplesOut, opus_int32 *nSamplesOut, int arch)
 {
@@ -60,6 +63,9 @@ int celt_decode_with_ec_dred(CELTDecoder *st, const unsigned char *data, int len
    __CPROVER_assert(data == NULL || len <= 1 || __CPROVER_r_ok(data, len), "celt_decode: the bytes it is given lie inside the packet");
    if (!(frame_size == F2_5 || frame_size == 2 * F2_5 || frame_size == 4 * F2_5 || frame_size == 8 * F2_5)) { g_celt_bad++; return OPUS_BAD_ARG; }   /* not a CELT frame size */
    __CPROVER_assert(__CPROVER_w_ok(pcm, (size_t)frame_size * 2 * sizeof(opus_res)) || __CPROVER_w_ok(pcm, (size_t)frame_size * sizeof(opus_res)), "celt_decode: output buffer holds the frame");
+#ifdef VERIF_GAIN
+   g_pre = pcm[verif_K];        /* the decoded sample (arbitrary: the buffer content is nondeterministic) before post-processing */
+#endif
    return frame_size;
 }
 int celt_decode_with_ec(CELTDecoder *st, const unsigned char *data, int len, opus_res *pcm, int frame_size, ec_dec *dec, int accum)
@@ -77,6 +83,9 @@ typedef struct { OpusDecoder d; char sub_states[64]; } dec_block;
 #ifndef VERIF_MAXLEN
 #define VERIF_MAXLEN 6
 #endif
+#ifndef VERIF_MAXF
+#define VERIF_MAXF 48      /* largest buffer / TOC duration considered, in units of 2.5 ms */
+#endif
 void h_decode_frame(void)
 {
    dec_block *blk = malloc(sizeof(dec_block)); OpusDecoder *st, old; int len = nondet_int(), frame_size = nondet_int(), fec = nondet_bool(), ret, i, null_data = nondet_bool();
@@ -93,7 +102,7 @@ void h_decode_frame(void)
    __CPROVER_assume(st->mode != MODE_CELT_ONLY || st->frame_size <= 8 * F2_5);
    __CPROVER_assume(st->mode != MODE_HYBRID || (st->frame_size == 4 * F2_5 || st->frame_size == 8 * F2_5));
    __CPROVER_assume(st->mode != MODE_SILK_ONLY || st->frame_size >= 4 * F2_5);
-   __CPROVER_assume(1 <= frame_size && frame_size <= 48 * F2_5);
+   __CPROVER_assume(1 <= frame_size && frame_size <= VERIF_MAXF * F2_5 && st->frame_size <= VERIF_MAXF * F2_5);
    pcm = malloc((size_t)frame_size * st->channels * sizeof(opus_res)); __CPROVER_assume(pcm != NULL);
    __CPROVER_assume(0 <= len && len <= VERIF_MAXLEN);
    if (!null_data) { data = malloc(len > 0 ? len : 1); __CPROVER_assume(data != NULL); for (i = 0; i < VERIF_MAXLEN; i++) if (i < len) data[i] = nondet_uchar(); }
